@@ -345,3 +345,37 @@ def parse_desc(desc):
     kind = kind_s.replace("dyn ", "").split("::")[-1].split(" ")[0]
     base = 1 if "kilometer" in units_s else 0
     return dims, kind, base
+
+
+def saturating_probes():
+    """Integer-storage programs outside the f64 family: num_traits::Saturating between quantities.  Returns (programs, expected verdicts):
+    two temperature POINTS must not combine (that would apply the offset twice); lengths and temperature intervals do."""
+    def q(mod, alias):
+        return f"uom::si::{mod}::{alias}<uom::si::SI<i32>, i32>"
+    def prog(ty, unit, meth, note):
+        body = (f"use uom::num::Saturating; let a = <{ty}>::new::<{unit}>(300); let b = <{ty}>::new::<{unit}>(5); "
+                f"let c: {ty} = a.{meth}(b); let _v: i32 = c.value; String::new()")
+        return Program("(unchanged (() Kind 0))", [], body, note)
+    tt, ti, ln = q("thermodynamic_temperature", "ThermodynamicTemperature"), q("temperature_interval", "TemperatureInterval"), q("length", "Length")
+    progs, want = [], []
+    for meth in ("saturating_add", "saturating_sub"):
+        progs.append(prog(tt, "uom::si::thermodynamic_temperature::kelvin", meth, f"point.{meth}(point)")); want.append(False)
+        progs.append(prog(ti, "uom::si::temperature_interval::kelvin", meth, f"interval.{meth}(interval)")); want.append(True)
+        progs.append(prog(ln, "uom::si::length::meter", meth, f"length.{meth}(length)")); want.append(True)
+    return progs, want
+
+
+def check_saturating(ctx, name, spec):
+    progs, want = saturating_probes()
+    rv = classify(name, ["autoconvert", "f64", "i32", "si", "std"], progs)
+    n = 0
+    for i, w in enumerate(want):
+        got = rv.get(i, (None, []))[0]
+        if got is None:
+            continue
+        n += 1
+        if got != w:
+            ctx.violation({"kind": "program", "spec": spec, "program": progs[i].rust_fn(f"p{i}"), "note": progs[i].note,
+                           "features": ["autoconvert", "f64", "i32", "si", "std"], "detail": f"rustc {'accepts' if got else 'rejects'} it; it must {'compile' if w else 'not compile'}",
+                           "how_to_replay": "put PRELUDE (vlib/progs.py) and this function into a crate depending on uom (path /repo) with the listed features; cargo check"})
+    return n
